@@ -63,6 +63,8 @@ def driverLine (inp obs : List String) : Bool × Bool × String × String :=
       let ops := ops.filterMap parseOp
       let (mrs, ms) := run s0 ops
       let shown := " ".intercalate (mrs.map showRes) ++ s!" ; {showHex ms.written} {ms.flushes} {ms.shutdowns}"
+      -- an adapter answered `Pending` although nothing below it had been handed the caller's waker
+      if ors.contains "Pl" then (false, false, "C18/pending-without-wakeup", shown) else
       match tail with
       | [w, f, sh] =>
         let ors' := ors.filterMap parseRes
